@@ -3320,30 +3320,32 @@ impl LineBuf {
 				}
 			}
 			Verb::ToggleCaseInplace(count) => {
+				// '~' toggles what is a letter and steps over what is not, up to the end of the line;
+				// the cursor ends on the last character it went over
 				for i in 0..count {
-					let Some(gr) = self.grapheme_at_cursor() else {
-						return Ok(())
+					let Some(gr) = self.grapheme_at_cursor().map(|gr| gr.to_string()) else {
+						break
 					};
-					if gr.len() > 1 || gr.is_empty() {
-						return Ok(())
-					}
-					let ch = gr.chars().next().unwrap();
-					if !ch.is_alphabetic() {
-						return Ok(())
-					}
-					let mut buf = [0u8;4];
-					let new = if ch.is_ascii_lowercase() {
-						ch.to_ascii_uppercase().encode_utf8(&mut buf)
-					} else {
-						ch.to_ascii_lowercase().encode_utf8(&mut buf)
-					};
-					self.replace_at_cursor(new);
-
-					// try to increment the cursor until we are on the last iteration
-					// or until we hit the end of the buffer
-					if i != count.saturating_sub(1) && !self.cursor.inc() {
+					if gr == "\n" {
 						break
 					}
+					let mut chars = gr.chars();
+					if let (Some(ch),None) = (chars.next(),chars.next()) {
+						if ch.is_alphabetic() {
+							let mut buf = [0u8;4];
+							let new = if ch.is_ascii_lowercase() {
+								ch.to_ascii_uppercase().encode_utf8(&mut buf)
+							} else {
+								ch.to_ascii_lowercase().encode_utf8(&mut buf)
+							};
+							self.replace_at_cursor(new);
+						}
+					}
+					let next = self.cursor.get() + 1;
+					if i + 1 == count || self.grapheme_at(next).is_none_or(|gr| gr == "\n") {
+						break
+					}
+					self.cursor.set(next);
 				}
 			}
 			Verb::ToggleCaseRange => {
@@ -3520,9 +3522,14 @@ impl LineBuf {
 							// After the cursor - but an empty line (or buffer) has no 'after'
 							let on_text = self.grapheme_at_cursor().is_some_and(|gr| gr != "\n");
 							let insert_idx = match anchor {
-								Anchor::After if on_text => self.cursor.ret_add(1),
+								// (not ret_add(): at the last character that would stay put)
+								Anchor::After if on_text => self.cursor.get() + 1,
 								_ => self.cursor.get()
 							};
+							if content.is_empty() {
+								// Nothing to put
+								return Ok(())
+							}
 							let len = match &content {
 								RegisterContent::Span(text) => text.graphemes(true).count(),
 								other => other.len()
